@@ -218,5 +218,7 @@ pub fn jobs_with(tier: Tier, seed: u64, need_rw: bool) -> Vec<Job> {
     let mut rng = Rng::new(seed);
     let mut keyed: Vec<(u32, u64, Case)> = cases.into_iter().map(|(c, k)| (c, rng.next(), k)).collect();
     keyed.sort_by_key(|(c, r, _)| (*c / 10, *r));
-    keyed.into_iter().map(|(c, _, k)| case_job(k, cfg.clone(), per_job, c < 20 && tier == Tier::Quick)).collect()
+    let mut out = super::c07::conformance_jobs(tier, &[0, 1, 2, 4]);
+    out.extend(keyed.into_iter().map(|(c, _, k)| case_job(k, cfg.clone(), per_job, c < 20 && tier == Tier::Quick)));
+    out
 }
